@@ -2,6 +2,7 @@
 From Coq Require Import Sorting.Sorted Sorting.Permutation.
 From VZ Require Import Base.Prelude Model.Space Proofs.SpaceP.
 From VZ Require Model.FactoryIR Gen.FactorySrc Proofs.FactorySrcP.
+From VZ Require Model.MembershipIR Gen.MembershipSrc Proofs.MembershipSrcP.
 
 (* one parameter: contains(value) is True exactly for values inside the domain (in_domain: number between the bounds for
    DOUBLE, integral number between the bounds for INTEGER, number equal to a feasible value for DISCRETE, string or
@@ -99,3 +100,11 @@ Theorem C16_source_factory_is_the_model : forall name bounds feasible,
   FactoryIR.factory_of FactorySrc.src_factory FactorySrc.src_helpers name bounds feasible = factory name bounds feasible.
 Proof. exact FactorySrcP.src_factory_is_factory. Qed.
 Print Assumptions C16_source_factory_is_the_model.
+
+(* the membership test of one parameter, regenerated statement by statement from ParameterType.assert_correct_type,
+   ParameterConfig._assert_feasible / _assert_bounds / _assert_in_feasible_values / contains on every run (Gen/MembershipSrc.v;
+   the ParameterValue casts are compared with pinned texts): its meaning is pc_contains, the function the theorems above are about *)
+Theorem C16_source_membership_is_the_model : forall p v,
+  MembershipIR.interp_member MembershipSrc.src_member p v = Some (pc_contains p v).
+Proof. exact MembershipSrcP.src_member_is_contains. Qed.
+Print Assumptions C16_source_membership_is_the_model.
